@@ -81,6 +81,27 @@ def _strip_copy(e: ast.expr) -> ast.expr:
     return e
 
 
+def _result_table_ok(p, f: FuncInfo, txt: str) -> Optional[bool]:
+    """decision table of f's result with respect to one preload slot (name-free path summaries): on every returning path on which the slot is present the value is the slot
+    itself (possibly copied) and nothing else is applied to it; on every other path the value does not involve the slot.  However the exits are arranged (early return,
+    one exit with the later steps guarded by `slot is None`, if / elif chains)."""
+    PS = paths.path_summaries(f, project=p)
+    rets = paths.returns(PS) if PS is not None else []
+    if not rets:
+        return None
+    want = paths.ptext(ast.parse(txt, mode="eval").body)
+    for q in rets:
+        present = q.holds(f"{txt} is not None")
+        v = q.value
+        vt = paths.ptext(_strip_copy(v)) if v is not None else ""
+        if present is True:
+            if vt != want:
+                return False
+        elif want in paths.ptext(v):
+            return False
+    return True
+
+
 def _parents(f: FuncInfo) -> Dict[int, ast.AST]:
     par = {}
     for n in ast.walk(f.node):
@@ -140,6 +161,7 @@ def rule_shortcircuit(ctx, p: Project):
     prov = provenance(p)
     slots = set(slot_names(p))
     consumed: Set[str] = set()
+    table_cache: Dict[tuple, Optional[bool]] = {}
     n_sites = 0
     for f in p.all_functions():
         if not C11.in_scope(f) or f.module.name == "autoarray.preloads":
@@ -163,6 +185,16 @@ def rule_shortcircuit(ctx, p: Project):
                 continue
             if S in ("use_w_tilde",):
                 continue  # a flag, handled by C15.wiring
+            # the function the slot was recorded from, read as a decision table: whatever its shape (helper properties, one exit, nested tests of a local that stands for
+            # the slot), on every path with the slot present it returns the (copied) slot untouched and otherwise does not involve it
+            Qf = prov.get(S, set())
+            if f.name in Qf or (S, f.name) in RESULT_ALIASES:
+                tkey = (f.key, txt)
+                if tkey not in table_cache:
+                    table_cache[tkey] = _result_table_ok(p, f, txt)
+                if table_cache[tkey]:
+                    ctx.ob(rule, inst + ":result", True, detail=f"decision table: with the slot present the result is the (copied) slot recorded from `{f.name}`, untouched; otherwise the slot is not involved")
+                    continue
             # where does the value go?
             top = node
             while isinstance(par.get(id(top)), (ast.Call, ast.Attribute, ast.keyword)) and not isinstance(par.get(id(top)), ast.stmt):
@@ -240,6 +272,10 @@ def rule_shortcircuit(ctx, p: Project):
                        detail=f"{X} = slot, otherwise {[norm_text(e) for e in sib]}",
                        message=f"`{S}` (recorded from {sorted(Q) or 'nothing'}) is substituted for {[norm_text(e)[:50] for e in sib]}, which is not the quantity it was recorded from: "
                                f"whatever the other branches still apply to `{X}` afterwards is applied to the finished preloaded value as well")
+                continue
+            Q = prov.get(S, set())
+            if (f.name in Q or (S, f.name) in RESULT_ALIASES) and _result_table_ok(p, f, txt):
+                ctx.ob(rule, inst + ":result", True, detail=f"one-exit form: on every path with the slot present the result is the (copied) slot recorded from `{f.name}`, untouched; the slot is not involved otherwise")
                 continue
             ctx.ob(rule, inst + ":other", False, where=f, node=stmt if stmt is not None else node, construct=f"{f.qualname}: {norm_text(stmt)[:80] if stmt is not None else txt}",
                    message=f"unclassified use of preload slot `{S}` (neither presence test, early return nor substitution)")
